@@ -284,6 +284,32 @@ theorem quadratic_roots_exact (sqrt : K → K) (a b c : K) (ha : a ≠ 0) (hd : 
 
 example : Poly.realRootsLow (fun _ => (1 : ℚ)) [6, -5, 1] = .some [2, 3] := by decide +kernel
 
+/-- **The bracketing window of `IterRealRoots` (degree ≥ 4) contains every real root**: with leading
+coefficient `a ≠ 0`, every root `r` satisfies `|r| < 1 + maxᵢ |aᵢ/a|` — the `absBound` the code
+computes ("Cauchy's bound"), whatever the sign of `a`.  (The search between `±absBound` and between
+the derivative's roots is libm/iterative code and is validated, not proved: kinds `realroots.q`,
+`resid.v roots`.) -/
+theorem cauchy_bound_contains_roots (cs : List K) (a r : K) (ha : a ≠ 0)
+    (hroot : Poly.evalSpec r (cs ++ [a]) = 0) : |r| < Poly.cauchyBound (cs ++ [a]) := by
+  by_contra hnot
+  have hge : Poly.cauchyBound (cs ++ [a]) ≤ |r| := not_lt.mp hnot
+  simp only [Poly.cauchyBound, List.getLastD_concat, List.dropLast_concat] at hge
+  push_cast at hge
+  set M := cs.foldl (fun acc x => Poly.maxP acc (Poly.absP (x / a))) (0 : K) with hMdef
+  obtain ⟨hM0, hMc⟩ := foldl_max_ge (fun x => Poly.absP (x / a)) cs (0 : K)
+  have hapos : 0 < |a| := abs_pos.mpr ha
+  have hc : ∀ c ∈ cs, |c| ≤ M * |a| := by
+    intro c hcm
+    have := hMc c hcm
+    rw [absP_eq, abs_div] at this
+    rwa [div_le_iff₀ hapos] at this
+  have := eval_ge_lead cs a r M hM0 hc (by linarith)
+  rw [hroot, abs_zero] at this
+  linarith
+
+example : Poly.cauchyBound [(1 : ℚ), 0, 0, 0, -1] = 2 := by decide +kernel
+
+
 /-! ## Angle helpers (`toolbox3d/angles.go`), period `τ > 0` abstract -/
 
 /-- `CanonicalAngle(θ)` is congruent to `θ` modulo the period and lies in `[0, τ)`. -/
